@@ -125,6 +125,7 @@ def _check(nr, nc, obs, msk, nodata, cost, out, src, dst, tol):
 
 def _float(call):
     import random
+    from common import call_impl
     from pyflwdir import gis_utils as g, regions
     from affine import Affine
     rng = random.Random(call["seed"])
@@ -155,27 +156,58 @@ def _float(call):
             # sanity against the sphere: an east-west step costs about R cos(lat) dlon
             return [[0]]
         return [[1], [res[0] + ":geographic", res[1] + f" (north={north}, yres={yres}, shape {nr}x{nc})"]]
-    # region_dissolve
-    labels = [rng.randint(1, 4) for _ in range(n)]
-    # make regions contiguous blobs: label by a coarse grid
-    lab = np.array([[1 + (r * 2 // nr) * 2 + (c * 2 // nc) for c in range(nc)] for r in range(nr)], dtype=np.int32)
+    # region_dissolve: random contiguous regions (nearest-seed labelling), dissolved by labels or by one location each
+    nseed = rng.randint(2, 5)
+    seeds = rng.sample(range(n), min(nseed, n))
+    lab = np.zeros((nr, nc), dtype=np.int32)
+    ids = rng.sample(range(1, 9), len(seeds))
+    for i in range(n):
+        r, c = divmod(i, nc)
+        k = min(range(len(seeds)), key=lambda t: (max(abs(seeds[t] // nc - r), abs(seeds[t] % nc - c)), t))
+        lab[r, c] = ids[k]
     present = sorted(set(int(x) for x in lab.ravel()))
     if len(present) < 2:
         return [[0]]
     kill = rng.sample(present, rng.randint(1, len(present) - 1))
-    res = regions.region_dissolve(lab, labels=np.array(kill))
-    bad = []
     keep = [p for p in present if p not in kill]
-    for v_old, v_new in zip(lab.ravel(), np.asarray(res).ravel()):
+    flat = [int(x) for x in lab.ravel()]
+    by_idxs = rng.random() < 0.4
+    if by_idxs:
+        locs = [rng.choice([i for i in range(n) if flat[i] == k]) for k in kill]
+        st, res = call_impl(regions.region_dissolve, lab, None, np.array(locs))
+    else:
+        locs = None
+        st, res = call_impl(regions.region_dissolve, lab, np.array(kill))
+    if st != "ok":
+        return [[1], ["dissolve:" + st, f"region_dissolve raised {st}: {str(res)[:100]} on {lab.tolist()} kill {kill}"]]
+    res = np.asarray(res)
+    bad = []
+    if res.shape != lab.shape:
+        return [[1], ["dissolve:shape", f"shape {res.shape}"]]
+    for v_old, v_new in zip(flat, res.ravel()):
         if v_old in keep and v_new != v_old:
             bad.append(f"surviving region {v_old} relabelled {v_new}")
         if v_old in kill and v_new not in keep:
             bad.append(f"dissolved region {v_old} got label {v_new}, not a surviving label")
-    for k in kill:
-        if len(set(int(x) for x in np.asarray(res)[lab == k])) != 1:
-            bad.append(f"dissolved region {k} split over several labels")
-    # nearest surviving region (unit costs): the label at the cell of region k closest to any surviving cell
-    return [[0]] if not bad else [[1], ["dissolve", "; ".join(bad[:3])]]
+    # nearest surviving region: distance of every cell to each surviving label separately
+    unit = lambda i, j: math.hypot(i // nc - j // nc, i % nc - j % nc)
+    dist_to = {}
+    for L in keep:
+        obs = [L if flat[i] == L else 0 for i in range(n)]
+        dist_to[L] = _dijkstra(nr, nc, obs, None, 0, unit)
+    for t, k in enumerate(kill):
+        cells = [i for i in range(n) if flat[i] == k]
+        got = set(int(x) for x in res.ravel()[cells])
+        if len(got) != 1:
+            bad.append(f"dissolved region {k} split over several labels {sorted(got)}")
+            continue
+        g1 = got.pop()
+        ref = [locs[t]] if by_idxs else cells
+        best = min(dist_to[L].get(i, math.inf) for L in keep for i in ref)
+        okl = [L for L in keep if min(dist_to[L].get(i, math.inf) for i in ref) <= best * (1 + 1e-6) + 1e-9]
+        if g1 not in okl:
+            bad.append(f"dissolved region {k} got label {g1}; nearest surviving region(s) {okl} at distance {best:.4f}")
+    return [[0]] if not bad else [[1], ["dissolve", "; ".join(bad[:3]) + f" on {lab.tolist()} dissolve {kill}" + (f" at {locs}" if by_idxs else "")]]
 
 
 def oracle(case, out):
